@@ -26,9 +26,12 @@ def c16():
               "payload fragmented into 1-9 arrivals with short or long (5 x timeout) pauses, data queued before the start, peer stays open / "
               "closes / half-closes, callback policy (continue until full/EOF, stop / destroy / disable inside the first callback, or - dispatch tasks - "
               "decline without stopping, stay paused longer than the timeout, re-enable), a dup()ed descriptor with CLOSE_ON_DESTROY, windows that reach "
-              "past the buffer (must be refused by the direct first transfer), window "
+              "past the buffer (must be refused by the direct first transfer), fragments written from inside the library's recv() so that they arrive "
+              "between two reads of one handler run, window "
               "re-arming, small SO_SNDBUF for send tasks, schedule plan, and epoll_ctl/timerfd fault plan. Non-trivial: >=2 callbacks, window "
               "not at the buffer start, EOF/timeout reported, stop from inside a callback, or a fault. "
+              "Check file_tasks (same unit): tp_task_rw_handler direct transfers on in-memory files - reads across the end of file, writes that grow the file "
+              "or run into a sealed size; exactly one report, bytes / cursors / file content exact. "
               "Unit C16_conn, check pkt_histories: datagram receiver (tp_task_pkt_rcvr_create) on an AF_UNIX SOCK_DGRAM pair or UDP 127.0.0.1, "
               "1-10 datagrams of 0..buffer+40 bytes whose bytes encode (datagram, offset), sent before/after the start in bursts, with short pauses, "
               "waits for delivery or waits for a timeout report; buffer 16..512 with the in-tree initial window, a busy prefix or an arbitrary window; "
